@@ -223,6 +223,13 @@ func findInlineNode(file *ast.File, comment *ast.Comment, fset *token.FileSet) (
 			return false // Found code, can stop
 		}
 
+		// A line may also hold only the opening of a construct ("default:", "select {",
+		// "var ("): the node then starts on the comment's line and ends further down
+		if fset.Position(n.Pos()).Line == commentLine {
+			hasCodeOnLine = true
+			return false
+		}
+
 		return true
 	})
 
